@@ -198,8 +198,10 @@ def main():
            "co_consts": "cs", "co_names": "nm", "co_varnames": "vn", "co_freevars": "fv", "co_cellvars": "cv", "co_filename": "fn", "co_name": "nmx",
            "co_firstlineno": "l", "co_linetable": "lt", "co_qualname": "q", "co_exceptiontable": "e"}
     o = {"host": [3, 12], "cls": "Code311", "native": nat, "portable": dict(nat), "back": dict(nat), "back_ok": 1, "back_err": "", "replaced": dict(nat, co_name="new"),
-         "orig_after": dict(nat), "newname": "new", "same_object": 0}
+         "orig_after": dict(nat), "newname": "new", "same_object": 0,
+         "rback_ok": 1, "rback": dict(nat, co_name="new"), "back2_ok": 1, "back2": dict(nat)}
     ok &= run_probe("field", "CodeConv", o, lambda r: r["back"].__setitem__("co_linetable", "other"), lambda r: r["portable"].pop("co_exceptiontable"))
+    ok &= run_probe("stale result", "CodeConv", o, lambda r: r["rback"].__setitem__("co_name", "nmx"), lambda r: r["back2"].__setitem__("co_code", "other"))
     # S10
     o = {"hist": ["a", "b"], "results": ["ra", "rb"], "shareds": ["s", "s"], "base": {"a": "ra", "b": "rb"}, "shared0": "s"}
     ok &= run_probe("history", "SessionTrace", o, lambda r: r["results"].__setitem__(1, "other"), lambda r: r["shareds"].__setitem__(0, "changed"))
